@@ -163,6 +163,16 @@ CHECKS.update({
     },
 })
 
+CHECKS.update({
+    "C06": {
+        "engine": "SEQ", "category": "model_checking",
+        "technique": "explicit enumeration of all operation histories up to depth 3 (4) on real builders, without state merging; differential oracles against a second call, a fresh directly-configured builder and replays in fresh interpreters under other hash seeds",
+        "text": "every sequence over {set stable ids / scalar mass / couplings / alignment, toggle naming flags, dynamics.assign, adapter.permutate, register extra topology, formulate} for one builder and for two builders sharing a reaction (all interleavings), from three base configurations and four (six) reactions; digests of all six model attributes incl. dictionary order must not depend on history, on a second call, or on PYTHONHASHSEED",
+        "note": "process-global caches are cleared between histories only; srepr digests; depth bound 3 quick / 4 thorough",
+        "design": "3/C06",
+    },
+})
+
 NOT_YET = "check not implemented yet at this commit (planned, see DESIGN.md section 7)"
 
 
